@@ -7,6 +7,7 @@ import (
 	"os"
 	"os/signal"
 	"path/filepath"
+	"strings"
 	"sync/atomic"
 	"syscall"
 	"testing"
@@ -44,6 +45,36 @@ type faultSpec struct {
 	// "symlink-abs"/"symlink-rel" (the configured path is a symbolic link to the real file, link
 	// target absolute / relative), "relative"/"relative-subdir" (path relative to the working directory).
 	Loc string `json:"loc,omitempty"`
+	// After (Via "debounce" only): what happens in the same process once the write limit is lifted
+	// after the faulted save: "redo" (undo and re-apply the very change whose save failed, within
+	// one cool-down), "reload" (POST reload-users on the file nobody touched, then one more
+	// change), "more" (one more change); then a graceful stop.
+	After string `json:"after,omitempty"`
+}
+
+// afterOps returns the requests of the second part and the user set acknowledged at its end.
+func afterOps(spec faultSpec) (ops []opSpec, reload bool, final map[string]int) {
+	next := applyModel(spec.Prev, spec.Op)
+	switch spec.After {
+	case "redo":
+		var undo opSpec
+		switch spec.Op.Op {
+		case "add":
+			undo = opSpec{"delete", spec.Op.Name, 0}
+		case "delete":
+			undo = opSpec{"add", spec.Op.Name, spec.Prev[spec.Op.Name]}
+		case "update":
+			undo = opSpec{"update", spec.Op.Name, spec.Prev[spec.Op.Name]}
+		}
+		return []opSpec{undo, spec.Op}, false, next
+	case "reload":
+		zed := opSpec{"add", "zed", 777}
+		return []opSpec{zed}, true, applyModel(next, zed)
+	case "more":
+		zed := opSpec{"add", "zed", 777}
+		return []opSpec{zed}, false, applyModel(next, zed)
+	}
+	return nil, false, next
 }
 
 // Locs lists the store-location classes.
@@ -100,6 +131,12 @@ type faultResult struct {
 	AckCode   int    `json:"ack_code"`  // status of the management request
 	NoSave    bool   `json:"no_save"`   // file unchanged and no error logged: the save was never attempted
 	Err       string `json:"err,omitempty"`
+	// second part (spec.After): the limit is lifted, further changes are acknowledged in the same
+	// process, then a graceful stop
+	AfterFile   []byte `json:"after_file,omitempty"`   // store file after the graceful stop
+	AfterNote   string `json:"after_note,omitempty"`   // what was done, with status codes
+	AfterBad    string `json:"after_bad,omitempty"`    // a request of the second part was refused / the list was wrong
+	AfterErrors int64  `json:"after_errors,omitempty"` // "Failed to save credentials" lines logged in the second part
 }
 
 type faultOutput struct {
@@ -209,6 +246,8 @@ func childFaults(t *testing.T, spec faultSpec) {
 			t.Fatal(err)
 		}
 		var saveErrs atomic.Int64
+		var firstErrs int64
+		fileTaken := false
 		synctest.Test(t, func(t *testing.T) {
 			rig, err := credx.NewRig(path, kl, spec.Stores, countingLogger(&saveErrs))
 			if err != nil {
@@ -226,6 +265,33 @@ func childFaults(t *testing.T, spec faultSpec) {
 				time.Sleep(6 * time.Second) // the save is attempted at +5 s on the bubble's clock
 				synctest.Wait()
 				_ = setFileSizeLimit(^uint64(0))
+				res.File, _ = os.ReadFile(absPath)
+				fileTaken = true
+				firstErrs = saveErrs.Load()
+				if spec.After != "" {
+					ops, reload, final := afterOps(spec)
+					var note []string
+					if reload {
+						code, _ := rig.Reload()
+						note = append(note, fmt.Sprintf("POST reload-users (file untouched) -> %d", code))
+						if code < 200 || code > 299 {
+							res.AfterBad = "reload of the untouched file refused"
+						}
+						if l, err := rig.List(); err != nil || !credx.SameUsers(l, users(kl, applyModel(spec.Prev, spec.Op))) {
+							res.AfterBad = fmt.Sprintf("after the reload of the untouched file the API lists %s, acknowledged is %s",
+								credx.Show(l, kl), credx.Show(users(kl, applyModel(spec.Prev, spec.Op)), kl))
+						}
+					}
+					for _, op := range ops {
+						code := doOp(rig, kl, op)
+						note = append(note, fmt.Sprintf("%s(%s) -> %d", op.Op, op.Name, code))
+						if (code < 200 || code > 299) && res.AfterBad == "" {
+							res.AfterBad = fmt.Sprintf("%s(%s), valid against the acknowledged state, answered %d", op.Op, op.Name, code)
+						}
+					}
+					_ = final
+					res.AfterNote = strings.Join(note, "; ")
+				}
 				cancel()
 				rig.Stop()
 			} else {
@@ -240,8 +306,14 @@ func childFaults(t *testing.T, spec faultSpec) {
 		})
 		_ = setFileSizeLimit(^uint64(0))
 		// what a restarting server would read through the configured path
-		res.File, _ = os.ReadFile(absPath)
-		res.SaveErr = saveErrs.Load() > 0
+		if !fileTaken {
+			res.File, _ = os.ReadFile(absPath)
+			firstErrs = saveErrs.Load()
+		} else if spec.After != "" {
+			res.AfterFile, _ = os.ReadFile(absPath)
+			res.AfterErrors = saveErrs.Load() - firstErrs
+		}
+		res.SaveErr = firstErrs > 0
 		res.NoSave = !res.SaveErr && string(res.File) == string(prevDoc)
 		if ents, err := os.ReadDir(filepath.Dir(absPath)); err == nil {
 			res.Leftovers = len(ents) - 1
